@@ -1,533 +1,3 @@
-From Verif Require Import Base.Common Gen.Consts_default Model.C03.
-From Verif Require Model.C15 Proofs.C15.
-From Coq Require Import Arith PeanoNat.
-
-(* ------------------------------------------------------------------ lists *)
-
-Lemma find_idx_some {A} (f : A -> bool) : forall (l : list A) k, find_idx f l = Some k ->
-  exists a, nth_error l k = Some a /\ f a = true /\ forall j b, (j < k)%nat -> nth_error l j = Some b -> f b = false.
-Proof.
-  induction l as [|x l IH]; intros k H; cbn in H; [discriminate|].
-  destruct (f x) eqn:Ex.
-  - inversion H; subst. exists x. repeat split; [exact Ex|]. intros j b Hj. lia.
-  - destruct (find_idx f l) as [k'|] eqn:E; [|discriminate]. cbn in H. inversion H; subst.
-    destruct (IH k' eq_refl) as (a & Ha & Hf & Hlt). exists a. repeat split; [exact Ha|exact Hf|].
-    intros [|j] b Hj Hb; cbn in Hb; [inversion Hb; subst; exact Ex|]. apply (Hlt j b); [lia|exact Hb].
-Qed.
-
-Lemma find_idx_none {A} (f : A -> bool) : forall (l : list A), find_idx f l = None <-> existsb f l = false.
-Proof.
-  induction l as [|x l IH]; cbn; [tauto|]. destruct (f x); cbn; [split; discriminate|].
-  destruct (find_idx f l); cbn; split; intros H; try discriminate; try (apply IH; exact H); try reflexivity.
-  apply IH in H. discriminate.
-Qed.
-
-Lemma find_idx_is_some {A} (f : A -> bool) (l : list A) : existsb f l = true -> exists k, find_idx f l = Some k.
-Proof.
-  intros H. destruct (find_idx f l) as [k|] eqn:E; [eauto|]. apply find_idx_none in E. congruence.
-Qed.
-
-Lemma existsb_nth {A} (f : A -> bool) (l : list A) :
-  existsb f l = true <-> exists k a, nth_error l k = Some a /\ f a = true.
-Proof.
-  rewrite existsb_exists. split.
-  - intros (a & Hin & Hf). apply In_nth_error in Hin. destruct Hin as [k Hk]. eauto.
-  - intros (k & a & Hk & Hf). exists a. split; [eapply nth_error_In; eauto|exact Hf].
-Qed.
-
-Lemma set_nth_length {A} (v : A) : forall l k, length (set_nth k v l) = length l.
-Proof. induction l as [|a l IH]; intros [|k]; cbn; try reflexivity. rewrite IH. reflexivity. Qed.
-
-Lemma set_nth_same {A} (v : A) : forall l k, (k < length l)%nat -> nth_error (set_nth k v l) k = Some v.
-Proof. induction l as [|a l IH]; intros [|k] H; cbn in *; try lia; [reflexivity|]. apply IH. lia. Qed.
-
-Lemma set_nth_other {A} (v : A) : forall l k j, j <> k -> nth_error (set_nth k v l) j = nth_error l j.
-Proof.
-  induction l as [|a l IH]; intros [|k] [|j] H; cbn; try reflexivity; try congruence. apply IH. congruence.
-Qed.
-
-Lemma nth_nth_error {A} (l : list A) k d a : nth_error l k = Some a -> nth k l d = a.
-Proof. intros H. apply nth_error_nth. exact H. Qed.
-
-(* ------------------------------------------------------------------ ids and passwords *)
-
-Lemma ci_key a b : ci_eqb a b = true <-> key a = key b.
-Proof. apply C15.ci_eqb_key. Qed.
-
-Lemma empty_spec id : is_empty id = true <-> id = [].
-Proof. destruct id; cbn; split; intros H; congruence. Qed.
-
-Lemma ci_nonempty a id : id <> [] -> ci_eqb a id = true -> a <> [].
-Proof.
-  intros Hne H E. subst a. apply ci_key in H. apply Hne. destruct id; [reflexivity|discriminate].
-Qed.
-
-Lemma valid_nonempty name : id_valid name = true -> cid name <> [].
-Proof.
-  unfold id_valid. intros H E. rewrite E in H. cbn in H. discriminate.
-Qed.
-
-(* generate => verify exactly the passwords with the same key block (C02 supplies this for the real hash) *)
-Lemma verify_gen pw h pw' : gen pw = Ok h -> (verify h pw' = true <-> hd 0 pw <> 0 /\ kb pw = kb pw').
-Proof.
-  destruct pw as [|ch r]; [discriminate|]. unfold gen. destruct (Z.eqb_spec ch 0) as [->|N]; intros H; inversion H; subst.
-  - unfold verify. cbn [hd]. split; [discriminate|intros [H0 _]; congruence].
-  - unfold verify, eqbl. cbn [hd]. rewrite Proofs.C15.eqbl_spec. split; [intros E; split; [exact N|exact E]|intros [_ E]; exact E].
-Qed.
-
-(* ------------------------------------------------------------------ the table predicates of the statements *)
-
-(* well-formed, not new/guest, not reserved — in any letter case *)
-Definition acceptable (c : cst) (name : list Z) : bool :=
-  id_valid name && negb (ci_eqb (cid name) ptttype.STR_REGNEW) && negb (ci_eqb (cid name) ptttype.STR_GUEST)
-  && negb (existsb (fun r => ci_eqb (cid name) r) (reserved c)).
-(* some slot holds the id in some letter case *)
-Definition taken (c : cst) (name : list Z) : bool :=
-  existsb (fun a => ci_eqb (a_id a) (cid name)) (slots c).
-(* a free slot exists: empty, or (when the hourly clean-up may run) held by an expired account other than uid 1 *)
-Definition room (c : cst) : bool :=
-  existsb (fun a => is_empty (a_id a)) (slots c) || (negb (throttle c) && existsb cleanable (tl (slots c))).
-
-(* ids are distinct up to letter case *)
-Definition WF (c : cst) : Prop :=
-  forall i j a b, nth_error (slots c) i = Some a -> nth_error (slots c) j = Some b ->
-    a_id a <> [] -> key (a_id a) = key (a_id b) -> i = j.
-
-Lemma taken_spec c name : cid name <> [] ->
-  (taken c name = true <-> exists k a, nth_error (slots c) k = Some a /\ a_id a <> [] /\ key (a_id a) = key (cid name)).
-Proof.
-  intros Hne. unfold taken. rewrite existsb_nth. split.
-  - intros (k & a & Hk & Hf). exists k, a. repeat split; [exact Hk|eapply ci_nonempty; eauto|apply ci_key; exact Hf].
-  - intros (k & a & Hk & _ & Hf). exists k, a. split; [exact Hk|apply ci_key; exact Hf].
-Qed.
-
-Lemma lookup_taken c name : cid name <> [] ->
-  (lookup (slots c) (cid name) = None <-> taken c name = false).
-Proof.
-  intros Hne. unfold lookup, taken. destruct (is_empty (cid name)) eqn:E; [apply empty_spec in E; contradiction|].
-  apply find_idx_none.
-Qed.
-
-Lemma lookup_some sl id k : lookup sl id = Some k ->
-  exists a, nth_error sl k = Some a /\ a_id a <> [] /\ key (a_id a) = key id.
-Proof.
-  unfold lookup. destruct (is_empty id) eqn:E; [discriminate|]. intros H.
-  apply find_idx_some in H. destruct H as (a & Ha & Hf & _). exists a. repeat split; [exact Ha| |apply ci_key; exact Hf].
-  eapply ci_nonempty; [|exact Hf]. intros E'. subst id. discriminate.
-Qed.
-
-(* under WF the account found is THE account with that key *)
-Lemma lookup_unique c id k j b : WF c -> lookup (slots c) id = Some k ->
-  nth_error (slots c) j = Some b -> a_id b <> [] -> key (a_id b) = key id -> j = k.
-Proof.
-  intros W H Hj Hne Hk. destruct (lookup_some _ _ _ H) as (a & Ha & _ & Hka).
-  apply (W j k b a Hj Ha Hne). congruence.
-Qed.
-
-Lemma clean_nothing sl : existsb cleanable (tl sl) = false -> clean sl = sl.
-Proof.
-  destruct sl as [|s0 r]; [reflexivity|]. cbn. intros H. f_equal.
-  induction r as [|a r IH]; [reflexivity|]. cbn in *. apply orb_false_iff in H. destruct H as [H1 H2].
-  rewrite H1. f_equal. apply IH. exact H2.
-Qed.
-
-Lemma clean_length sl : length (clean sl) = length sl.
-Proof. destruct sl as [|s0 r]; [reflexivity|]. cbn. rewrite map_length. reflexivity. Qed.
-
-Lemma clean_nth sl j : nth_error (clean sl) j = nth_error sl j \/
-  (exists j' a, j = S j' /\ nth_error sl j = Some a /\ cleanable a = true /\ nth_error (clean sl) j = Some no_acct).
-Proof.
-  destruct sl as [|s0 r]; [left; reflexivity|]. destruct j as [|j]; [left; reflexivity|]. cbn.
-  rewrite nth_error_map. destruct (nth_error r j) as [a|] eqn:E; cbn; [|left; reflexivity].
-  destruct (cleanable a) eqn:Ec; [right; exists j, a; auto|left; reflexivity].
-Qed.
-
-Lemma clean_room sl : existsb (fun a => is_empty (a_id a)) sl = false ->
-  existsb (fun a => is_empty (a_id a)) (clean sl) = existsb cleanable (tl sl).
-Proof.
-  destruct sl as [|s0 r]; [reflexivity|]. cbn. intros H. apply orb_false_iff in H. destruct H as [H0 Hr]. rewrite H0. cbn.
-  induction r as [|a r IH]; [reflexivity|]. cbn in *. apply orb_false_iff in Hr. destruct Hr as [Ha Hr].
-  rewrite (IH Hr). f_equal. destruct (cleanable a); [reflexivity|exact Ha].
-Qed.
-
-Lemma after_clean_room c : (exists k, find_empty (slots (after_clean c)) = Some k) <-> room c = true.
-Proof.
-  unfold after_clean, room, find_empty.
-  destruct (find_idx (fun a => is_empty (a_id a)) (slots c)) as [k|] eqn:E.
-  - split; [intros _|intros _; eauto]. apply orb_true_iff. left.
-    destruct (existsb (fun a => is_empty (a_id a)) (slots c)) eqn:Ex; [reflexivity|]. apply find_idx_none in Ex. congruence.
-  - pose proof E as Ex. apply find_idx_none in Ex. rewrite Ex. cbn [orb].
-    destruct (throttle c); cbn [negb andb].
-    + rewrite E. split; [intros [k H]; discriminate|discriminate].
-    + cbn [slots]. rewrite <- (clean_room _ Ex). split.
-      * intros [k H]. destruct (existsb _ (clean (slots c))) eqn:E2; [reflexivity|]. apply find_idx_none in E2. congruence.
-      * apply find_idx_is_some.
-Qed.
-
-Lemma after_clean_fail c : room c = false -> slots (after_clean c) = slots c.
-Proof.
-  unfold room, after_clean, find_empty. intros H. apply orb_false_iff in H. destruct H as [H1 H2].
-  apply find_idx_none in H1. rewrite H1. destruct (throttle c); [reflexivity|]. cbn in *. apply clean_nothing. exact H2.
-Qed.
-
-(* ------------------------------------------------------------------ registration *)
-
-Theorem register_exact c name pw email h : gen pw = Ok h ->
-  let rc := register c name pw email in
-  if acceptable c name && negb (taken c name) && room c
-  then exists k, find_empty (slots (after_clean c)) = Some k /\ fst rc = ROk (cid name) /\
-       slots (snd rc) = set_nth k (mkAcct (cid name) h (cstr_field (Z.to_nat ptttype.EMAILSZ) email) false false) (slots (after_clean c))
-  else (exists e, fst rc = RErr e) /\ slots (snd rc) = slots c.
-Proof.
-  intros Hg. cbv zeta. unfold register, acceptable.
-  destruct (id_valid name) eqn:Ev; [|cbn; split; [eexists; reflexivity|reflexivity]].
-  destruct (ci_eqb (cid name) ptttype.STR_REGNEW) eqn:E1; [cbn; split; [eexists; reflexivity|reflexivity]|].
-  destruct (ci_eqb (cid name) ptttype.STR_GUEST) eqn:E2; [cbn; split; [eexists; reflexivity|reflexivity]|].
-  destruct (existsb (fun r => ci_eqb (cid name) r) (reserved c)) eqn:E3; [cbn; split; [eexists; reflexivity|reflexivity]|].
-  cbn [negb orb andb].
-  rewrite Hg. pose proof (valid_nonempty _ Ev) as Hne.
-  destruct (lookup (slots c) (cid name)) as [k0|] eqn:El.
-  - assert (Ht : taken c name = true).
-    { destruct (taken c name) eqn:Et; [reflexivity|]. apply (lookup_taken c name Hne) in Et. congruence. }
-    rewrite Ht. cbn. split; [eauto|reflexivity].
-  - apply (lookup_taken c name Hne) in El. rewrite El. cbn [negb andb].
-    destruct (room c) eqn:Er.
-    + apply after_clean_room in Er. destruct Er as [k Hk]. rewrite Hk. exists k. cbn. repeat split.
-    + destruct (find_empty (slots (after_clean c))) as [k|] eqn:Ef.
-      * exfalso. assert (room c = true) by (apply after_clean_room; eauto). congruence.
-      * cbn. split; [eauto|]. apply after_clean_fail. exact Er.
-Qed.
-
-(* ------------------------------------------------------------------ login and password check *)
-
-Theorem login_exact c name pw :
-  let rc := login c name pw in
-  match lookup (slots c) (cid name) with
-  | Some k =>
-      let a := nth k (slots c) no_acct in
-      if id_valid name && (eqbl (a_id a) ptttype.STR_GUEST || verify (a_pw a) pw)
-      then fst rc = ROk (shown_id a) /\
-           slots (snd rc) = set_nth k (mkAcct (a_id a) (a_pw a) (a_email a) false (a_xempt a)) (slots c)
-      else fst rc = RErr E_USERID /\ snd rc = c
-  | None => fst rc = RErr E_USERID /\ snd rc = c
-  end.
-Proof.
-  cbv zeta. unfold login. destruct (id_valid name); cbn [negb andb].
-  - destruct (lookup (slots c) (cid name)) as [k|]; [|split; reflexivity].
-    destruct (eqbl _ _ || verify _ _); split; reflexivity.
-  - destruct (lookup (slots c) (cid name)); split; reflexivity.
-Qed.
-
-Theorem check_pw_exact c name pw :
-  let rc := check_pw c name pw in
-  snd rc = c /\
-  (fst rc = ROk [] <-> id_valid name = true /\ exists k, lookup (slots c) (cid name) = Some k /\
-                        verify (a_pw (nth k (slots c) no_acct)) pw = true).
-Proof.
-  cbv zeta. unfold check_pw. destruct (id_valid name); cbn [negb].
-  - destruct (lookup (slots c) (cid name)) as [k|].
-    + destruct (verify _ pw) eqn:Ev; cbn; (split; [reflexivity|]); split.
-      * intros _. split; [reflexivity|]. exists k. split; [reflexivity|exact Ev].
-      * intros _. reflexivity.
-      * discriminate.
-      * intros [_ (k' & Hk & Hv)]. inversion Hk; subst. congruence.
-    + cbn. split; [reflexivity|]. split; [discriminate|]. intros [_ (k' & Hk & _)]. discriminate.
-  - cbn. split; [reflexivity|]. split; [discriminate|]. intros [H _]. discriminate.
-Qed.
-
-(* ------------------------------------------------------------------ password change *)
-
-Theorem change_needs_old c name old new :
-  let rc := change_pw c name old new in
-  (forall p, fst rc = ROk p ->
-     exists k h, lookup (slots c) (cid name) = Some k /\ id_valid name = true /\
-       verify (a_pw (nth k (slots c) no_acct)) old = true /\ gen new = Ok h /\
-       let a := nth k (slots c) no_acct in
-       slots (snd rc) = set_nth k (mkAcct (a_id a) h (a_email a) (a_old a) (a_xempt a)) (slots c)) /\
-  ((forall k, lookup (slots c) (cid name) = Some k -> verify (a_pw (nth k (slots c) no_acct)) old = false) ->
-     (exists e, fst rc = RErr e) /\ snd rc = c).
-Proof.
-  cbv zeta. unfold change_pw. destruct (id_valid name); cbn [negb].
-  - destruct (lookup (slots c) (cid name)) as [k|].
-    + destruct (verify (a_pw (nth k (slots c) no_acct)) old) eqn:Ev.
-      * destruct (gen new) as [h| |] eqn:Eg; cbn; split; try (intros p H; discriminate).
-        -- intros p _. exists k, h. repeat split. exact Ev.
-        -- intros H. specialize (H k eq_refl). congruence.
-        -- intros H. specialize (H k eq_refl). congruence.
-        -- intros H. specialize (H k eq_refl). congruence.
-      * cbn. split; [intros p H; discriminate|]. intros _. split; [eauto|reflexivity].
-    + cbn. split; [intros p H; discriminate|]. intros _. split; [eauto|reflexivity].
-  - cbn. split; [intros p H; discriminate|]. intros _. split; [eauto|reflexivity].
-Qed.
-
-(* ------------------------------------------------------------------ frame: which slots an operation may change *)
-
-Definition same_except (k : nat) (l l' : list acct) : Prop :=
-  length l' = length l /\ forall j, j <> k -> nth_error l' j = nth_error l j.
-
-Lemma same_except_refl k l : same_except k l l.
-Proof. split; [reflexivity|intros; reflexivity]. Qed.
-
-Lemma same_except_set k v l : same_except k l (set_nth k v l).
-Proof. split; [apply set_nth_length|intros j H; apply set_nth_other; exact H]. Qed.
-
-(* every operation other than a registration changes at most the slot of the account it names *)
-Theorem slot_frame_other c o : (forall n p e, o <> ORegister n p e) ->
-  exists k, same_except k (slots c) (slots (snd (step c o))).
-Proof.
-  intros Hnr. destruct o as [n p e|n p|n p|n p q|n e|n|n|]; cbn [step].
-  - exfalso. eapply Hnr. reflexivity.
-  - unfold login. destruct (id_valid n); cbn [negb]; [|exists O; apply same_except_refl].
-    destruct (lookup (slots c) (cid n)) as [k|]; [|exists O; apply same_except_refl].
-    destruct (_ || _); [exists k; apply same_except_set|exists O; apply same_except_refl].
-  - exists O. destruct (check_pw_exact c n p) as [H _]. rewrite H. apply same_except_refl.
-  - unfold change_pw. destruct (id_valid n); cbn [negb]; [|exists O; apply same_except_refl].
-    destruct (lookup (slots c) (cid n)) as [k|]; [|exists O; apply same_except_refl].
-    destruct (verify _ _); [|exists O; apply same_except_refl].
-    destruct (gen q); [exists k; apply same_except_set|exists O; apply same_except_refl|exists O; apply same_except_refl].
-  - unfold change_email. destruct (id_valid n); cbn [negb]; [|exists O; apply same_except_refl].
-    destruct (lookup (slots c) (cid n)) as [k|]; [exists k; apply same_except_set|exists O; apply same_except_refl].
-  - unfold exists_user. destruct (id_valid n); cbn [negb]; [|exists O; apply same_except_refl].
-    destruct (lookup (slots c) (cid n)); exists O; apply same_except_refl.
-  - unfold get_user. destruct (id_valid n); cbn [negb]; [|exists O; apply same_except_refl].
-    destruct (lookup (slots c) (cid n)); exists O; apply same_except_refl.
-  - exists O. apply same_except_refl.
-Qed.
-
-(* a registration changes the slot it is given and — only when the table was full and the hourly clean-up ran —
-   empties slots of expired accounts other than uid 1 *)
-Theorem slot_frame_register c name pw email :
-  let c' := snd (register c name pw email) in
-  length (slots c') = length (slots c) /\
-  exists k, forall j, j <> k ->
-    nth_error (slots c') j = nth_error (slots c) j \/
-    (find_empty (slots c) = None /\ throttle c = false /\
-     exists j' a, j = S j' /\ nth_error (slots c) j = Some a /\ cleanable a = true /\ nth_error (slots c') j = Some no_acct).
-Proof.
-  cbv zeta.
-  assert (Hac : length (slots (after_clean c)) = length (slots c) /\ forall j,
-    nth_error (slots (after_clean c)) j = nth_error (slots c) j \/
-    (find_empty (slots c) = None /\ throttle c = false /\
-     exists j' a, j = S j' /\ nth_error (slots c) j = Some a /\ cleanable a = true /\ nth_error (slots (after_clean c)) j = Some no_acct)).
-  { unfold after_clean. destruct (find_empty (slots c)) eqn:Ef; [split; [reflexivity|left; reflexivity]|].
-    destruct (throttle c) eqn:Et; [split; [reflexivity|left; reflexivity]|]. cbn [slots]. split; [apply clean_length|].
-    intros j. destruct (clean_nth (slots c) j) as [H|H]; [left; exact H|right; repeat split; exact H]. }
-  destruct Hac as [Hlen Hac].
-  unfold register.
-  destruct (_ || _ || _); [split; [reflexivity|exists O; left; reflexivity]|].
-  destruct (existsb _ (reserved c)); [split; [reflexivity|exists O; left; reflexivity]|].
-  destruct (gen pw); try (split; [reflexivity|exists O; left; reflexivity]).
-  destruct (lookup (slots c) (cid name)); [split; [reflexivity|exists O; left; reflexivity]|].
-  destruct (find_empty (slots (after_clean c))) as [k|]; cbn [snd].
-  - unfold with_slots. cbn [slots]. split; [rewrite set_nth_length; exact Hlen|]. exists k. intros j Hj.
-    rewrite (set_nth_other _ _ _ _ Hj). apply Hac.
-  - split; [exact Hlen|]. exists O. intros j _. apply Hac.
-Qed.
-
-(* ------------------------------------------------------------------ histories: ids stay distinct up to case *)
-
-Lemma WF_set_same_id c k a a' : WF c -> nth_error (slots c) k = Some a -> a_id a' = a_id a ->
-  WF (with_slots c (set_nth k a' (slots c))).
-Proof.
-  intros W Hk Hid i j x y Hi Hj Hne Hkey. unfold with_slots in *. cbn [slots] in *.
-  assert (Hlt : (k < length (slots c))%nat) by (apply nth_error_Some; congruence).
-  destruct (Nat.eq_dec i k) as [->|Ni]; destruct (Nat.eq_dec j k) as [->|Nj]; try reflexivity.
-  - rewrite set_nth_same in Hi by exact Hlt. inversion Hi; subst x. rewrite set_nth_other in Hj by exact Nj.
-    apply (W k j a y Hk Hj); congruence.
-  - rewrite set_nth_same in Hj by exact Hlt. inversion Hj; subst y. rewrite set_nth_other in Hi by exact Ni.
-    apply (W i k x a Hi Hk Hne). congruence.
-  - rewrite set_nth_other in Hi, Hj by assumption. apply (W i j x y Hi Hj Hne Hkey).
-Qed.
-
-Lemma WF_clean c : WF c -> WF (mkC (clean (slots c)) (reserved c) true).
-Proof.
-  intros W i j x y Hi Hj Hne Hkey. cbn [slots] in *.
-  destruct (clean_nth (slots c) i) as [Ei|(i' & a & _ & _ & _ & Ei)]; [|rewrite Ei in Hi; inversion Hi; subst x; exfalso; apply Hne; reflexivity].
-  destruct (clean_nth (slots c) j) as [Ej|(j' & b & _ & _ & _ & Ej)].
-  - rewrite Ei in Hi. rewrite Ej in Hj. apply (W i j x y Hi Hj Hne Hkey).
-  - rewrite Ej in Hj. inversion Hj; subst y. cbn in Hkey. exfalso. apply Hne. destruct (a_id x); [reflexivity|discriminate].
-Qed.
-
-Lemma WF_after_clean c : WF c -> WF (after_clean c).
-Proof.
-  intros W. unfold after_clean. destruct (find_empty (slots c)); [exact W|]. destruct (throttle c); [exact W|apply WF_clean; exact W].
-Qed.
-
-Lemma lookup_after_clean_none c id : id <> [] -> lookup (slots c) id = None -> lookup (slots (after_clean c)) id = None.
-Proof.
-  intros Hne H. unfold lookup in *. destruct (is_empty id) eqn:E; [reflexivity|]. apply find_idx_none. apply find_idx_none in H.
-  destruct (existsb _ (slots (after_clean c))) eqn:Ex; [|reflexivity]. exfalso.
-  apply existsb_nth in Ex. destruct Ex as (k & a & Hk & Hf).
-  unfold after_clean in Hk. destruct (find_empty (slots c)).
-  - assert (existsb (fun a => ci_eqb (a_id a) id) (slots c) = true) by (apply existsb_nth; eauto). congruence.
-  - destruct (throttle c).
-    + assert (existsb (fun a => ci_eqb (a_id a) id) (slots c) = true) by (apply existsb_nth; eauto). congruence.
-    + cbn [slots] in Hk. destruct (clean_nth (slots c) k) as [Ek|(k' & b & _ & _ & _ & Ek)].
-      * rewrite Ek in Hk. assert (existsb (fun a => ci_eqb (a_id a) id) (slots c) = true) by (apply existsb_nth; eauto). congruence.
-      * rewrite Ek in Hk. inversion Hk; subst a. cbn in Hf. apply (ci_nonempty [] id Hne Hf). reflexivity.
-Qed.
-
-Lemma step_WF c o : WF c -> WF (snd (step c o)).
-Proof.
-  intros W. destruct o as [n p e|n p|n p|n p q|n e|n|n|]; cbn [step].
-  - unfold register. destruct (_ || _ || _) eqn:Ebad; [exact W|]. destruct (existsb _ (reserved c)); [exact W|].
-    destruct (gen p) as [h| |]; try exact W.
-    destruct (lookup (slots c) (cid n)) eqn:El; [exact W|].
-    assert (Hv : id_valid n = true) by (destruct (id_valid n); [reflexivity|discriminate]).
-    pose proof (valid_nonempty _ Hv) as Hne.
-    pose proof (WF_after_clean c W) as W1. pose proof (lookup_after_clean_none c _ Hne El) as El1.
-    destruct (find_empty (slots (after_clean c))) as [k|] eqn:Ef; cbn [snd]; [|exact W1].
-    set (c1 := after_clean c) in *. set (a' := mkAcct _ _ _ _ _).
-    apply find_idx_some in Ef. destruct Ef as (a0 & Hk & He & _). apply empty_spec in He.
-    assert (Hlt : (k < length (slots c1))%nat) by (apply nth_error_Some; congruence).
-    assert (Hfresh : forall j b, nth_error (slots c1) j = Some b -> key (a_id b) <> key (cid n)).
-    { intros j b Hj Hkey. unfold lookup in El1. destruct (is_empty (cid n)) eqn:E; [apply empty_spec in E; contradiction|].
-      apply find_idx_none in El1. assert (existsb (fun a => ci_eqb (a_id a) (cid n)) (slots c1) = true); [|congruence].
-      apply existsb_nth. exists j, b. split; [exact Hj|apply ci_key; exact Hkey]. }
-    intros i j x y Hi Hj Hnx Hkey. unfold with_slots in *. cbn [slots] in *.
-    destruct (Nat.eq_dec i k) as [->|Ni]; destruct (Nat.eq_dec j k) as [->|Nj]; try reflexivity.
-    + rewrite set_nth_same in Hi by exact Hlt. inversion Hi; subst x. rewrite set_nth_other in Hj by exact Nj.
-      exfalso. apply (Hfresh j y Hj). unfold a' in Hkey. cbn [a_id] in Hkey. symmetry. exact Hkey.
-    + rewrite set_nth_same in Hj by exact Hlt. inversion Hj; subst y. rewrite set_nth_other in Hi by exact Ni.
-      exfalso. apply (Hfresh i x Hi). unfold a' in Hkey. cbn [a_id] in Hkey. exact Hkey.
-    + rewrite set_nth_other in Hi, Hj by assumption. apply (W1 i j x y Hi Hj Hnx Hkey).
-  - unfold login. destruct (id_valid n); cbn [negb]; [|exact W].
-    destruct (lookup (slots c) (cid n)) as [k|] eqn:El; [|exact W]. destruct (_ || _); [|exact W]. cbn [snd].
-    destruct (lookup_some _ _ _ El) as (a1 & Ha & _). eapply WF_set_same_id; [exact W|exact Ha|]. cbn. rewrite (nth_nth_error _ _ _ _ Ha). reflexivity.
-  - destruct (check_pw_exact c n p) as [H _]. rewrite H. exact W.
-  - unfold change_pw. destruct (id_valid n); cbn [negb]; [|exact W].
-    destruct (lookup (slots c) (cid n)) as [k|] eqn:El; [|exact W]. destruct (verify _ _); [|exact W].
-    destruct (gen q); try exact W. cbn [snd].
-    destruct (lookup_some _ _ _ El) as (a1 & Ha & _). eapply WF_set_same_id; [exact W|exact Ha|]. cbn. rewrite (nth_nth_error _ _ _ _ Ha). reflexivity.
-  - unfold change_email. destruct (id_valid n); cbn [negb]; [|exact W].
-    destruct (lookup (slots c) (cid n)) as [k|] eqn:El; [|exact W]. cbn [snd].
-    destruct (lookup_some _ _ _ El) as (a1 & Ha & _). eapply WF_set_same_id; [exact W|exact Ha|]. cbn. rewrite (nth_nth_error _ _ _ _ Ha). reflexivity.
-  - unfold exists_user. destruct (id_valid n); cbn [negb]; [|exact W]. destruct (lookup _ _); exact W.
-  - unfold get_user. destruct (id_valid n); cbn [negb]; [|exact W]. destruct (lookup _ _); exact W.
-  - exact W.
-Qed.
-
-Theorem run_WF ops : forall c, WF c -> WF (snd (run c ops)).
-Proof.
-  induction ops as [|o r IH]; intros c W; [exact W|]. cbn [run].
-  pose proof (step_WF c o W) as W1. destruct (step c o) as [x c1]. cbn [snd] in W1.
-  specialize (IH c1 W1). destruct (run c1 r) as [xs c2]. exact IH.
-Qed.
-
-(* the number of slots never changes *)
-Lemma step_length c o : length (slots (snd (step c o))) = length (slots c).
-Proof.
-  destruct o as [n p e| | | | | | |].
-  - apply (slot_frame_register c n p e).
-  - destruct (slot_frame_other c (OLogin name pw)) as [k [H _]]; [discriminate|exact H].
-  - destruct (slot_frame_other c (OCheckPw name pw)) as [k [H _]]; [discriminate|exact H].
-  - destruct (slot_frame_other c (OChangePw name old new)) as [k [H _]]; [discriminate|exact H].
-  - destruct (slot_frame_other c (OChangeEmail name email)) as [k [H _]]; [discriminate|exact H].
-  - destruct (slot_frame_other c (OExists name)) as [k [H _]]; [discriminate|exact H].
-  - destruct (slot_frame_other c (OGetUser name)) as [k [H _]]; [discriminate|exact H].
-  - reflexivity.
-Qed.
-
-Theorem run_length ops : forall c, length (slots (snd (run c ops))) = length (slots c).
-Proof.
-  induction ops as [|o r IH]; intros c; [reflexivity|]. cbn [run].
-  pose proof (step_length c o) as H1. destruct (step c o) as [x c1]. cbn [snd] in H1.
-  specialize (IH c1). destruct (run c1 r) as [xs c2]. cbn [snd] in *. congruence.
-Qed.
-
-(* ------------------------------------------------------------------ end to end: the current password, in any letter case of the id *)
-
-Lemma find_idx_set_new {A} (f : A -> bool) v : forall l k, find_idx f l = None -> (k < length l)%nat -> f v = true ->
-  find_idx f (set_nth k v l) = Some k.
-Proof.
-  induction l as [|a l IH]; intros k Hn Hk Hv; cbn in *; [lia|].
-  destruct (f a) eqn:Ea; [discriminate|]. destruct (find_idx f l) eqn:El; [discriminate|].
-  destruct k as [|k]; cbn; [rewrite Hv; reflexivity|]. rewrite Ea. rewrite (IH k eq_refl); [reflexivity|lia|exact Hv].
-Qed.
-
-Lemma existsb_ext' {A} (f g : A -> bool) (l : list A) : (forall a, f a = g a) -> existsb f l = existsb g l.
-Proof. intros H. induction l as [|a l IH]; [reflexivity|]. cbn. rewrite H, IH. reflexivity. Qed.
-
-Lemma nth_set_same {A} (v d : A) : forall l k, (k < length l)%nat -> nth k (set_nth k v l) d = v.
-Proof. induction l as [|a l IH]; intros [|k] H; cbn in *; try lia; [reflexivity|]. apply IH. lia. Qed.
-
-Theorem register_then_login c name pw email h name' pw' :
-  gen pw = Ok h -> acceptable c name && negb (taken c name) && room c = true ->
-  id_valid name' = true -> key (cid name') = key (cid name) ->
-  let c' := snd (register c name pw email) in
-  (fst (login c' name' pw') = ROk (cid name) <-> hd 0 pw <> 0 /\ kb pw = kb pw') /\
-  (fst (login c' name' pw') = ROk (cid name) \/ fst (login c' name' pw') = RErr E_USERID).
-Proof.
-  intros Hg Hacc Hv' Hkey. cbv zeta.
-  pose proof (register_exact c name pw email h Hg) as R. cbv zeta in R. rewrite Hacc in R.
-  destruct R as (k & Hk & _ & Hs).
-  apply andb_true_iff in Hacc. destruct Hacc as [Hacc _]. apply andb_true_iff in Hacc. destruct Hacc as [Hacc Hnt].
-  unfold acceptable in Hacc.
-  apply andb_true_iff in Hacc. destruct Hacc as [Hacc Hres].
-  apply andb_true_iff in Hacc. destruct Hacc as [Hacc H0].
-  apply andb_true_iff in Hacc. destruct Hacc as [Hacc Hnew].
-  pose proof (valid_nonempty _ Hacc) as Hne. pose proof (valid_nonempty _ Hv') as Hne'.
-  apply negb_true_iff in Hnt. apply (lookup_taken c name Hne) in Hnt.
-  pose proof (lookup_after_clean_none c _ Hne Hnt) as Hl1.
-  pose proof Hk as Hk2. apply find_idx_some in Hk2. destruct Hk2 as (a0 & Hk0 & _ & _).
-  assert (Hlt : (k < length (slots (after_clean c)))%nat) by (apply nth_error_Some; congruence).
-  set (a' := mkAcct (cid name) h (cstr_field (Z.to_nat ptttype.EMAILSZ) email) false false) in *.
-  assert (Hl : lookup (slots (snd (register c name pw email))) (cid name') = Some k).
-  { rewrite Hs. unfold lookup in *. destruct (is_empty (cid name')) eqn:E1; [apply empty_spec in E1; contradiction|].
-    destruct (is_empty (cid name)) eqn:E2; [apply empty_spec in E2; contradiction|].
-    apply find_idx_set_new; [|exact Hlt|apply ci_key; cbn; symmetry; exact Hkey].
-    apply find_idx_none. apply find_idx_none in Hl1.
-    rewrite (existsb_ext' _ (fun a => ci_eqb (a_id a) (cid name))); [exact Hl1|]. intros a. cbn beta.
-    destruct (ci_eqb (a_id a) (cid name')) eqn:E3.
-    - symmetry. apply ci_key. apply ci_key in E3. congruence.
-    - destruct (ci_eqb (a_id a) (cid name)) eqn:E4; [|reflexivity]. apply ci_key in E4.
-      assert (ci_eqb (a_id a) (cid name') = true) by (apply ci_key; congruence). congruence. }
-  assert (Hng : eqbl (cid name) ptttype.STR_GUEST = false).
-  { destruct (eqbl (cid name) ptttype.STR_GUEST) eqn:E; [|reflexivity]. apply Proofs.C15.eqbl_spec in E.
-    apply negb_true_iff in H0. rewrite E in H0. vm_compute in H0. discriminate. }
-  assert (Hvalid : id_valid (cid name) = true).
-  { unfold id_valid in *. unfold cid, cstr_field in *.
-    assert (Hidem : cprefix (firstn USER_ID_SZ (cprefix (firstn USER_ID_SZ name))) = cprefix (firstn USER_ID_SZ name)).
-    { assert (Hlen : (length (cprefix (firstn USER_ID_SZ name)) <= Z.to_nat ptttype.IDLEN)%nat).
-      { apply andb_true_iff in Hacc. destruct Hacc as [Hacc _]. apply andb_true_iff in Hacc. destruct Hacc as [Hacc _].
-        apply andb_true_iff in Hacc. destruct Hacc as [_ Hacc]. apply Nat.leb_le in Hacc. exact Hacc. }
-      rewrite firstn_all2 by (unfold USER_ID_SZ in *; lia).
-      generalize (firstn USER_ID_SZ name). intros l. induction l as [|x l IH]; [reflexivity|]. cbn.
-      destruct (x =? 0) eqn:Ex; [reflexivity|]. cbn. rewrite Ex. f_equal. exact IH. }
-    rewrite Hidem. exact Hacc. }
-  pose proof (login_exact (snd (register c name pw email)) name' pw') as L. cbv zeta in L. rewrite Hl in L.
-  rewrite Hs in L. rewrite (nth_set_same _ _ _ _ Hlt) in L. rewrite Hv' in L. cbn [andb a_id a_pw] in L.
-  unfold a' in L at 1 2. cbn [a_id a_pw] in L. rewrite Hng in L. cbn [orb] in L.
-  assert (Hshown : shown_id a' = cid name) by (unfold shown_id, a'; cbn [a_id]; rewrite Hvalid; reflexivity).
-  destruct (verify h pw') eqn:Ever.
-  - destruct L as [L _]. rewrite Hshown in L. split; [|left; exact L].
-    split; [intros _; apply (verify_gen pw h pw' Hg); exact Ever|intros _; exact L].
-  - destruct L as [L _]. split; [|right; exact L]. split.
-    + intros E. rewrite L in E. discriminate.
-    + intros Hq. apply (verify_gen pw h pw' Hg) in Hq. congruence.
-Qed.
-
-(* ------------------------------------------------------------------ non-vacuity *)
-Definition s_ (l : list Z) := l.
-Definition ex_c : cst :=
-  mkC [mkAcct [83;89;83;79;80] (Some (kb [49;50;51])) [] true false;          (* SYSOP, old: uid 1 is never reclaimed *)
-       mkAcct [111;108;100;49] (Some (kb [112])) [] true false;               (* old1: expired *)
-       mkAcct [103;117;101;115;116] None [] true false]                       (* guest *)
-      [[116;101;115;116;48]] false.
-Example ex_wf : WF ex_c.
-Proof.
-  intros i j a b Hi Hj Hne Hk.
-  assert (Hi3 : (i < length (slots ex_c))%nat) by (apply nth_error_Some; congruence).
-  assert (Hj3 : (j < length (slots ex_c))%nat) by (apply nth_error_Some; congruence).
-  cbn in Hi3, Hj3.
-  destruct i as [|[|[|i]]]; try lia; destruct j as [|[|[|j]]]; try lia; cbn in Hi, Hj;
-    inversion Hi; inversion Hj; subst; try reflexivity; try discriminate.
-Qed.
-(* a full table: "Alice" is registered into the slot reclaimed from old1; "ALICE" is then taken; login needs the password *)
-Example ex_history :
-  fst (run ex_c [ORegister [65;108;105;99;101] [112;119] [97]; ORegister [65;76;73;67;69] [120] [];
-                 OLogin [97;108;105;99;101] [112;119]; OLogin [97;108;105;99;101] [112;120]; OLogin [71;85;69;83;84] [];
-                 OChangePw [97;108;105;99;101] [120] [121]; OChangePw [97;108;105;99;101] [112;119] [121]; OCheckPw [65;108;105;99;101] [121]])
-  = [ROk [65;108;105;99;101]; RErr E_EXISTS; ROk [65;108;105;99;101]; RErr E_USERID; ROk [103;117;101;115;116];
-     RErr E_USERID; ROk []; ROk []].
-Proof. vm_compute. reflexivity. Qed.
+(* C03 — all lemmas: C03_ops (each operation of the account-table model, frame, invariants over histories),
+   C03_refine (the abstract account map, the abstraction function, refinement step by step and over histories). *)
+From Verif Require Export Proofs.C03_ops Proofs.C03_refine.
